@@ -3,7 +3,10 @@
 (* C15: what the REAL language services answered is judged here.           *)
 (*                                                                         *)
 (* (1) ScopeTrace.cfg -- one record per binder structure enumerated by     *)
-(* ScopeGen.tla; harness/src/scope.rs (vh scope-run) rendered it as a      *)
+(* ScopeGen.tla and one of its form vectors (Scope.tla, SURFACE FORMS: the  *)
+(* spelling of every place where the surface syntax can vary; `slots`,     *)
+(* `forms` = the kinds of places the harness met and the spellings it      *)
+(* wrote); harness/src/scope.rs (vh scope-run) rendered it as a            *)
 (* function, and recorded for every identifier occurrence i, in text order *)
 (*   occ[i] = [n |-> the identifier, loc |-> <<line, col, line, col>>,     *)
 (*             def, def2 |-> query::definition_location asked at the first *)
@@ -57,8 +60,12 @@ ToSet(s) == { s[j] : j \in DOMAIN s }
 (* (1) structures *)
 Ident(n) == n \o n          \* how the harness spells the abstract name
 SOcc == Occ(R.t)
+\* the harness met the places the specification lists and wrote a spelling each admits: whatever the
+\* spelling, the answers are judged against the same Def / Refs
+FormsOK == R.slots = Slots(R.t) /\ FormVectorOf(R.t, R.forms)
 \* the harness wrote the occurrences the specification lists, in the same order
-Aligned == /\ R.nocc = Len(SOcc) /\ (R.accepted => Len(R.occ) = Len(SOcc))
+Aligned == /\ FormsOK
+           /\ R.nocc = Len(SOcc) /\ (R.accepted => Len(R.occ) = Len(SOcc))
            /\ R.accepted => \A j \in DOMAIN SOcc : R.occ[j].n = Ident(SOcc[j].n)
 Judged == R.accepted /\ Aligned /\ WellScoped(SOcc)
 
